@@ -26,8 +26,9 @@ mod subtle_shim {
     }
 }
 
+#[no_mangle]
 #[inline(never)]
-fn marker_begin(slot: &mut [u64; 2]) {
+pub extern "C" fn ct_marker_begin(slot: &mut [u64; 2]) {
     unsafe {
         let p = slot.as_mut_ptr() as *mut u8;
         std::ptr::write_volatile(p, 1u8);
@@ -40,8 +41,9 @@ fn marker_begin(slot: &mut [u64; 2]) {
     }
 }
 
+#[no_mangle]
 #[inline(never)]
-fn marker_end(slot: &mut [u64; 2]) {
+pub extern "C" fn ct_marker_end(slot: &mut [u64; 2]) {
     unsafe {
         let p = slot.as_mut_ptr() as *mut u8;
         std::ptr::write_volatile(p as *mut u64, 8u64);
@@ -65,11 +67,11 @@ macro_rules! traced {
     ($slot:expr, $body:expr) => {{
         let t = black_box(TRACED.load(std::sync::atomic::Ordering::Relaxed));
         if t {
-            marker_begin($slot);
+            ct_marker_begin($slot);
         }
         let r = black_box($body);
         if t {
-            marker_end($slot);
+            ct_marker_end($slot);
         }
         black_box(r);
     }};
